@@ -31,8 +31,16 @@ def _norm(ix, rel):
 
 
 def _statuses(R):
+    """{(oid, site, statement): worst status} - several obligations may share
+    a key (e.g. four gathers in one function); the worst one represents it."""
     n = getattr(R, 'n_quick', len(R.obls))
-    return {(o.oid, o.site, o.statement): o.status for o in R.obls[:n]}
+    rank = {OK: 0, KNOWN: 1, ERR: 2, VIOL: 3}
+    out = {}
+    for o in R.obls[:n]:
+        k = (o.oid, o.site, o.statement)
+        if k not in out or rank[o.status] > rank[out[k]]:
+            out[k] = o.status
+    return out
 
 
 def _one(args):
